@@ -40,7 +40,7 @@ type PropertyPlan struct {
 }
 
 var harnessRe = regexp.MustCompile(`(?m)^//verif:harness([^\n]*)\nfunc (ZZ_\w+)\(\)`)
-var assertRe = regexp.MustCompile(`zzAssert\("([^"]+)"`)
+var assertRe = regexp.MustCompile(`zz(?:Assert|Lemma)\("([^"]+)"`)
 
 // parseSpecs extracts harness specs from a harness source file.
 func parseSpecs(pkgDir string, src string) []HarnessSpec {
@@ -801,6 +801,10 @@ func writeEvidence(plan *PropertyPlan, results []*HarnessResult, tier string, se
 		WallS:       time.Since(t0).Seconds(),
 		Violations:  violations,
 	}
+	if ev.Assumptions == nil {
+		ev.Assumptions = []string{}
+	}
+	ev.Assumptions = append(ev.Assumptions, "trusted base: golang.org/x/tools/go/ssa, the gosmt executor and its intrinsics (math/big model, stdlib stubs listed in coverage.stubs_and_intrinsics), z3/cvc5")
 	os.MkdirAll("/verif/evidence", 0o755)
 	data, _ := json.MarshalIndent(ev, "", " ")
 	os.WriteFile(filepath.Join("/verif/evidence", plan.ID+".json"), data, 0o644)
